@@ -21,9 +21,10 @@ Print Assumptions C10_msgpack_out.
    fixstr/str8/16/32, bin8/16/32, fixext/ext8/16/32, the three timestamp formats, any head for
    arrays and maps), of every spec value the library supports, followed by anything, is decoded
    by DecodeNaked into an item carrying the data the specification assigns ([agrees]) and
-   exactly the serialisation is consumed.  Guard: [lib_supports] excludes Go-unhashable map
-   keys, application use of extension type -1, and SignedInteger with an unsigned value
-   >= 2^63 (known finding F07-1n, see C10_msgpack_in_signed_refuted). *)
+   exactly the serialisation is consumed.  [lib_supports] excludes Go-unhashable map keys,
+   application use of extension type -1, and -- with SignedInteger, where every integer is
+   handed back as int64 -- an integer above MaxInt64; that last case is rejected with an error,
+   C10_msgpack_in_signed_overflow. *)
 Theorem C10_msgpack_in : forall D s w rest,
   ser s w -> lib_supports D s -> (Z.of_nat (sdepth s) < maxdepth D)%Z ->
   goslice (len (w ++ rest)) ->
@@ -31,17 +32,14 @@ Theorem C10_msgpack_in : forall D s w rest,
 Proof. exact c10_in. Qed.
 Print Assumptions C10_msgpack_in.
 
-(* the statement without the SignedInteger guard: false of the faithful model *)
-Definition C10_msgpack_in_full_statement : Prop :=
-  forall D s w,
-  ser s w -> (Z.of_nat (sdepth s) < maxdepth D)%Z ->
-  (forall it, dec_naked D (dec_fuel w) w = Ok (it, []) -> agrees D it s).
-
-Theorem C10_msgpack_in_signed_refuted :
-  exists D s w, ser s w /\ (Z.of_nat (sdepth s) < maxdepth D)%Z /\
-    forall it, dec_naked D (dec_fuel w) w = Ok (it, []) -> ~ agrees D it s.
-Proof. exact c10_in_signed_refuted. Qed.
-Print Assumptions C10_msgpack_in_signed_refuted.
+(* SignedInteger and an integer >= 2^63 (whose only serialisation is uint 64): never a changed
+   number, always the overflow error (after fix 3c4765d; before it: int64(-1) for cf ff*8,
+   finding F07-1n) *)
+Theorem C10_msgpack_in_signed_overflow : forall D z w rest,
+  ser (SInt z) w -> d_signedinteger D = true -> (2 ^ 63 <= z)%Z ->
+  dec_naked D (dec_fuel (w ++ rest)) (w ++ rest) = Err EOverflow.
+Proof. exact c10_in_signed_overflow. Qed.
+Print Assumptions C10_msgpack_in_signed_overflow.
 
 (* non-vacuity: the executable spec decoder reads an encoder output as the same data; a
    non-minimal serialisation (int 64 holding 5, str 32 holding "a", array 32, timestamp 96) is
@@ -79,12 +77,30 @@ Qed.
 (* ---------------- wire layer ---------------- *)
 
 (* decoding an encoding (followed by anything) yields norm of the item and leaves what followed *)
+(* [sint_ok D i]: when the decoder has SignedInteger, every unsigned integer of the item fits
+   int64 (otherwise Wmsgpack_dec_enc_signed_overflow) *)
 Theorem Wmsgpack_dec_enc : forall O D i rest,
-  supported i -> (Z.of_nat (depth i) < maxdepth D)%Z ->
+  supported i -> sint_ok D i -> (Z.of_nat (depth i) < maxdepth D)%Z ->
   goslice (len (enc O i ++ rest)) ->
   dec_naked D (dec_fuel (enc O i ++ rest)) (enc O i ++ rest) = Ok (norm O D i, rest).
 Proof. exact dec_enc. Qed.
 Print Assumptions Wmsgpack_dec_enc.
+
+(* the statement in its form before fix 3c4765d, for decoders without SignedInteger *)
+Theorem Wmsgpack_dec_enc_unsigned : forall O D i rest,
+  d_signedinteger D = false ->
+  supported i -> (Z.of_nat (depth i) < maxdepth D)%Z ->
+  goslice (len (enc O i ++ rest)) ->
+  dec_naked D (dec_fuel (enc O i ++ rest)) (enc O i ++ rest) = Ok (norm O D i, rest).
+Proof. exact dec_enc_unsigned. Qed.
+Print Assumptions Wmsgpack_dec_enc_unsigned.
+
+(* SignedInteger and an unsigned integer above MaxInt64: the overflow error, never a changed value *)
+Theorem Wmsgpack_dec_enc_signed_overflow : forall O D n rest,
+  d_signedinteger D = true -> (2 ^ 63 <= n < 2 ^ 64)%N ->
+  dec_naked D (dec_fuel (enc O (IUint n) ++ rest)) (enc O (IUint n) ++ rest) = Err EOverflow.
+Proof. exact dec_enc_signed_overflow. Qed.
+Print Assumptions Wmsgpack_dec_enc_signed_overflow.
 
 (* the skip parser (nextValueBytes) consumes exactly one encoding, from any entry depth d0 *)
 Theorem Wmsgpack_skip_enc : forall O D i rest d0,
@@ -159,7 +175,16 @@ Example Wmsgpack_nonvacuous :
   let D := mkdopts true false false 0 in
   let i := IMap [(IStr [107]%N, IArr [IInt (-33); IUint 300; IF32 1069547520; IBytes [1;2]%N; INil; IBool true]);
                  (IInt 7, ITime 1700000000 5); (IBytes [98]%N, IExt 5 [9;9;9]%N)] in
-  supported i /\ (Z.of_nat (depth i) < maxdepth D)%Z /\
+  supported i /\ sint_ok D i /\ (Z.of_nat (depth i) < maxdepth D)%Z /\
   dec_naked D (dec_fuel (enc O i)) (enc O i) = Ok (norm O D i, []) /\
   skip D (dec_fuel (enc O i)) (enc O i) = Ok [].
 Proof. cbv zeta. repeat apply conj; vm_compute; try reflexivity; try (intro; discriminate); auto. Qed.
+
+Example C10_msgpack_in_signed_overflow_nonvacuous :
+  ser (SInt 18446744073709551615) [0xcf; 255; 255; 255; 255; 255; 255; 255; 255]%N /\
+  dec_naked (mkdopts false false true 0) 19 [0xcf; 255; 255; 255; 255; 255; 255; 255; 255]%N = Err EOverflow /\
+  dec_naked (mkdopts false false false 0) 19 [0xcf; 255; 255; 255; 255; 255; 255; 255; 255]%N = Ok (IUint 18446744073709551615, []).
+Proof.
+  repeat apply conj; try (vm_compute; reflexivity).
+  cbn [ser]. unfold ser_int. do 5 right. left. split; [split; [lia|reflexivity]|reflexivity].
+Qed.
